@@ -23,11 +23,12 @@ struct Case
     int buf;     // 0 NULL, 1 caller buffer
     int dst;     // 0 in place (dst == src), 1 other buffer, 2 NULL destination
     unsigned nthreads;
+    int pre;     // call made on the same object BEFORE the measured one (non-initial object state): 0 none, 1/2 extendPol with another N, 3 NTT of the full domain
 };
 static std::string casestr(const Case &c)
 {
-    return fmt("mode=%s D=%llu n=%llu next=%llu ncols=%llu nphase=%s nblock=%s buf=%d dst=%d nthreads=%u", mname[c.mode], (unsigned long long)c.D, (unsigned long long)c.n,
-               (unsigned long long)c.next, (unsigned long long)c.ncols, hex(c.nphase).c_str(), hex(c.nblock).c_str(), c.buf, c.dst, c.nthreads);
+    return fmt("mode=%s D=%llu n=%llu next=%llu ncols=%llu nphase=%s nblock=%s buf=%d dst=%d nthreads=%u pre=%d", mname[c.mode], (unsigned long long)c.D, (unsigned long long)c.n,
+               (unsigned long long)c.next, (unsigned long long)c.ncols, hex(c.nphase).c_str(), hex(c.nblock).c_str(), c.buf, c.dst, c.nthreads, c.pre);
 }
 static unsigned lg(u64 x) { return nttor::lg(x); }
 static std::vector<u64> kernel(const Case &c) { return nttor::kernel(c.mode, c.n, c.next); }
@@ -53,6 +54,21 @@ static void run_case(const Case &c)
     const std::string prop = propof[c.mode];
     std::vector<u64> K = kernel(c);
     NTT_Goldilocks ntt(c.D, c.nthreads);
+    if (c.pre && c.n)
+    {
+        // bring the object into a non-initial state first
+        u64 m = c.n;
+        if (c.pre == 1) m = (2 * c.n <= c.D) ? 2 * c.n : c.n / 2;
+        else if (c.pre == 2) m = (c.n >= 2) ? c.n / 2 : 2 * c.n;
+        else m = c.D;
+        if (m >= 1 && m <= c.D)
+        {
+            std::vector<E> pin(m * 2), pout(m * 2);
+            for (u64 i = 0; i < m * 2; i++) pin[i].fe = i * 0x9E3779B97F4A7C15ULL + 7;
+            if (c.pre == 3) ntt.NTT(pout.data(), pin.data(), m, 2);
+            else ntt.extendPol(pout.data(), pin.data(), m, m, 2);
+        }
+    }
     const u64 SENT = 0x5E5E5E5E5E5E5E5EULL;
     size_t nsrc = n * ncols, ndst = nout * ncols;
     // in-place extension: one buffer of nout rows holds the input in its first n rows
@@ -126,7 +142,7 @@ static bool parse(const std::string &s, Case &c)
     for (int i = 0; i < NMODE; i++) if (mo == mname[i]) c.mode = i;
     if (c.mode < 0) return false;
     c.D = cu(m, "D"); c.n = cu(m, "n"); c.next = cu(m, "next"); c.ncols = cu(m, "ncols");
-    c.nphase = cu(m, "nphase"); c.nblock = cu(m, "nblock"); c.buf = (int)cu(m, "buf"); c.dst = (int)cu(m, "dst"); c.nthreads = (unsigned)cu(m, "nthreads");
+    c.nphase = cu(m, "nphase"); c.nblock = cu(m, "nblock"); c.buf = (int)cu(m, "buf"); c.dst = (int)cu(m, "dst"); c.nthreads = (unsigned)cu(m, "nthreads"); c.pre = (int)cu(m, "pre");
     return true;
 }
 static void report_crash(const Case &c, const ChildResult &r)
@@ -203,7 +219,7 @@ int main(int argc, char **argv)
                                     {
                                         if (D >= 64 && (t == 2 || t == 7) ) continue;
                                         if (D >= 64 && ncols == 5) continue;
-                                        cases.push_back({mode, D, n, 0, ncols, ph, bl, buf, dst, t});
+                                        cases.push_back({mode, D, n, 0, ncols, ph, bl, buf, dst, t, 0});
                                     }
                 }
         }
@@ -233,10 +249,29 @@ int main(int argc, char **argv)
                                         for (unsigned t : nth)
                                         {
                                             if (!th && Next > 64) continue;
-                                            cases.push_back({M_EXT, D, N, Next, ncols, ph, bl, buf, dst, t});
+                                            cases.push_back({M_EXT, D, N, Next, ncols, ph, bl, buf, dst, t, 0});
                                         }
                     }
             }
+    }
+    {
+        // non-initial object states: the same measured call after another call on the object
+        std::vector<Case> extra;
+        std::set<std::string> seen;
+        for (auto &c : cases)
+        {
+            if (c.n == 0 || c.ncols == 0 || c.buf != 0 || c.dst != 1 || c.nthreads != nth[0]) continue;
+            if (!(c.nphase == 3 || c.nphase == 2) || c.nblock != 1) continue;
+            for (int pre = 1; pre <= 3; pre++)
+            {
+                Case d = c;
+                d.pre = pre;
+                std::string k = casestr(d);
+                if (seen.insert(k).second) extra.push_back(d);
+            }
+        }
+        cases.insert(cases.end(), extra.begin(), extra.end());
+        rep().stat("cases_from_non_initial_object_state", (long long)extra.size());
     }
     if (args.seed) std::rotate(cases.begin(), cases.begin() + (args.seed % cases.size()), cases.end());
     isolated_for((long)cases.size(), args.jobs, 48, [&](long i) { run_case(cases[i]); }, [&](long i, const ChildResult &r) { report_crash(cases[i], r); }, 300);
